@@ -23,6 +23,9 @@ type TypeMethod struct {
 	Inputs            []MethodType
 	Outputs           []MethodType
 	ReceiverIsPointer bool // true if receiver is *T, false if T
+
+	// id is go/types' identifier of the method ("" in hand-built models), see InterfaceMethod
+	id string
 }
 
 // MethodType represents a type in method signature
@@ -154,6 +157,7 @@ func extractMethodsFromNamedType(named *types.Named) []TypeMethod {
 			Inputs:            extractMethodTypesFromTuple(sig.Params(), sig.Variadic()),
 			Outputs:           extractMethodTypesFromTuple(sig.Results(), false),
 			ReceiverIsPointer: recvIsPointer,
+			id:                method.Id(),
 		})
 	}
 
